@@ -47,3 +47,20 @@ text("c07-new-unvalidated-sender", "C07", RAW, "    async def get(self, oid: Obj
 text("c07-s-rename-local", "C07", RAW, "        request_id = get_request_id()\n        pdu = GetRequest(PDUContent(request_id, parsed_oids))\n        response = await self._send(pdu, request_id)", "        rid = get_request_id()\n        pdu = GetRequest(PDUContent(rid, parsed_oids))\n        response = await self._send(pdu, rid)", expect="silent")
 text("c07-s-validator-eq-form", "C07", UTIL, "    if response_id != request_id:\n        raise InvalidResponseId(\n            f\"Invalid response ID {response_id} for request id {request_id}\"\n        )", "    if request_id == response_id:\n        return\n    raise InvalidResponseId(\n        f\"Invalid response ID {response_id} for request id {request_id}\"\n    )", expect="silent")
 text("c07-s-send-extra-local", "C07", RAW, "        validate_response_id(request_id, response.value.request_id)\n        return response", "        got_id = response.value.request_id\n        LOG.debug(\"response id %s\", got_id)\n        validate_response_id(request_id, got_id)\n        return response", expect="silent")
+
+# ---------------------------------------------------------------- C08
+EXC = "puresnmp/exc.py"
+patch("rev-D2-error-index", "C08", "b4bc2bd-fix__error-index_outside_the_binding_list_no_longer_hides_th.diff")
+text("c08-status-positive-only", "C08", PDU, "        if error_status.value:\n", "        if error_status.value > 0:\n")
+text("c08-return-instead-of-raise", "C08", PDU, "            raise exception\n", "            LOG.error(exception)\n")
+text("c08-index-off-by-one", "C08", PDU, "            if 0 < error_index.value <= len(varbinds):\n                offending_oid = varbinds[error_index.value - 1].oid", "            if 0 <= error_index.value < len(varbinds):\n                offending_oid = varbinds[error_index.value].oid")
+text("c08-upper-bound-dropped", "C08", PDU, "if 0 < error_index.value <= len(varbinds):", "if 0 < error_index.value:")
+text("c08-lower-bound-dropped", "C08", PDU, "if 0 < error_index.value <= len(varbinds):", "if error_index.value <= len(varbinds):")
+text("c08-construct-wrong-arg", "C08", PDU, "                error_status.value, offending_oid or ObjectIdentifier()", "                error_index.value, offending_oid or ObjectIdentifier()")
+text("c08-identifier-swap", "C08", EXC, "    DEFAULT_MESSAGE = \"Bad value\"\n    IDENTIFIER = 3", "    DEFAULT_MESSAGE = \"Bad value\"\n    IDENTIFIER = 4")
+text("c08-indirect-subclass", "C08", EXC, "class NotWritable(ErrorResponse):", "class NotWritable(ReadOnly):")
+text("c08-fallback-drops-status", "C08", EXC, "        return ErrorResponse(offending_oid, message, error_status=error_status)", "        return ErrorResponse(offending_oid, message)")
+text("c08-swallow-in-send", "C08", RAW, "        response = self.mpm.decode(raw_response, self.credentials)\n        validate_response_id(request_id, response.value.request_id)\n        return response", "        response = self.mpm.decode(raw_response, self.credentials)\n        try:\n            validate_response_id(request_id, response.value.request_id)\n        except SnmpError as exc:\n            LOG.warning(\"ignoring %s\", exc)\n        return response")
+text("c08-s-guard-rewritten", "C08", PDU, "if 0 < error_index.value <= len(varbinds):", "if error_index.value >= 1 and error_index.value - 1 < len(varbinds):", expect="silent")
+text("c08-s-raise-direct", "C08", PDU, "            exception = ErrorResponse.construct(\n                error_status.value, offending_oid or ObjectIdentifier()\n            )\n            raise exception", "            raise ErrorResponse.construct(\n                error_status.value, offending_oid or ObjectIdentifier()\n            )", expect="silent")
+text("c08-s-status-ne-zero", "C08", PDU, "        if error_status.value:\n", "        if error_status.value != 0:\n", expect="silent")
